@@ -883,7 +883,8 @@ class Shelxfile():
             ref.remove_acta_card(self.acta)
             self.write_shelx_file(filen + '.ins')
             ref.run_shelxl(backup_before=backup_before)
-            self.reload()
+            # The result of the refinement is the res file, also if the model was read from the ins file:
+            self.read_file(self.resfile.resolve().with_suffix('.res'))
             ref.restore_acta_card()
             # self.write_shelx_file(filen + '.res')
             return True
